@@ -32,6 +32,12 @@ def deriv_jobs(tier, seed, routes_main, add, one_var_routes):
         add(d, routes=routes_main, var="x")
         add(d, routes=routes_main[:1], var="x", pre=[["eval", "root", "q"]])
         add(d, routes=routes_main[:1], var="y", pre=[["rev", "root", "q"]])
+        if tier == "thorough" or not any(k in str(d) for k in ("NthRoot", "Power", "Logarithm")):      # (the costly trees keep their plain warm-cache variants)
+            for pre in fam.sandwiches(d):
+                add(d, routes=routes_main[:1], var="x", pre=pre)
+        # one long-lived object of the route queried at q first, then at the main point (equal-but-distinct operands hold values of their own)
+        add(d, routes=routes_main[:1], var="x", reuse_seq=[["obj", "q"]])
+        add(d, routes=routes_main[:1], var="x", reuse_seq=[["obj", "q"], ["expr", "eval", "q"]])
     add(["Exponential", fam.A(1), ["sym", "b"]], routes=routes_main[:1], var="x", assume=[["gt", "b", 0]])
     add(["Logarithm", fam.A(1), ["sym", "b"]], routes=routes_main[:1], var="x", assume=[["gt", "b", 0], ["ne", "b", 1]])
     add(["Multiply", fam.C(1), fam.A(1), fam.C(2)], routes=routes_main[:1], var="x")
